@@ -183,6 +183,14 @@ func pad32(b []byte) []byte {
 	return r
 }
 
+// sparse32 is a 32-byte value that is non-zero in exactly one byte, in the high 12 bytes, at the 12/20 boundary or at the end:
+// non-zero as a 32-byte value although its low 20 (or high 12) bytes are all zero.
+func (g *Gen) sparse32() []byte {
+	b := make([]byte, 32)
+	b[g.pickInt([]int{0, 5, 11, 11, 12, 31})] = byte(1 + g.r.Intn(255))
+	return b
+}
+
 func encMsg(version, src, dst uint32, nonce uint64, sender, recipient, caller, body []byte) []byte {
 	b := make([]byte, 20)
 	binary.BigEndian.PutUint32(b[0:], version)
@@ -210,8 +218,36 @@ func upper(s string) string { return strings.ToUpper(s) }
 
 // tx helpers ------------------------------------------------------------
 func (g *Gen) tx(ty string, from string, rest string, plan string) string {
-	n := g.n()
-	l := fmt.Sprintf("TX %d %s from=%x", n, ty, from)
+	body := fmt.Sprintf("%s from=%x", ty, from)
+	if rest != "" {
+		body += " " + rest
+	}
+	if plan != "" {
+		body += " plan=" + plan
+	}
+	// Now and then a message is first executed on a branch that is dropped whatever the outcome (what a wallet's
+	// simulation, CheckTx, or a transaction whose later message fails does): either this very message or one seen
+	// earlier in the history (which may have become stale: a former role holder, a consumed nonce).
+	if g.r.Chance(1, 7) {
+		b := body
+		if len(g.recent) > 0 && g.r.Chance(1, 2) {
+			b = g.recent[g.r.Intn(len(g.recent))]
+		}
+		g.stats.Mut("dropped-execution")
+		g.x.Line(fmt.Sprintf("SIM %d %s", g.n(), b))
+	}
+	if len(g.recent) < 24 {
+		g.recent = append(g.recent, body)
+	} else {
+		g.recent[g.r.Intn(len(g.recent))] = body
+	}
+	g.x.Line(fmt.Sprintf("TX %d %s", g.n(), body))
+	return g.x.lastClass
+}
+// sim runs a message on a branch that is dropped whatever the outcome (simulation, CheckTx, or an early message of a
+// transaction whose later message fails); the generator's own bookkeeping must not treat it as delivered.
+func (g *Gen) sim(ty string, from string, rest string, plan string) {
+	l := fmt.Sprintf("SIM %d %s from=%x", g.n(), ty, from)
 	if rest != "" {
 		l += " " + rest
 	}
@@ -219,7 +255,6 @@ func (g *Gen) tx(ty string, from string, rest string, plan string) string {
 		l += " plan=" + plan
 	}
 	g.x.Line(l)
-	return g.x.lastClass
 }
 func (g *Gen) q(ty string, rest string) {
 	l := fmt.Sprintf("Q %d %s", g.n(), ty)
